@@ -7,6 +7,7 @@ the last printed place). Contract on GAF.parse_gaf_line for is_primary.
 """
 
 import collections
+from fractions import Fraction
 import os
 import re
 
@@ -117,10 +118,10 @@ def ref_stat(lines):
             prim.append(r)
     reads = collections.OrderedDict()
     for r in prim:
-        d = reads.setdefault(r.qname.split(" ")[0], {"ident": 0.0, "ratio": 0.0, "n": 0})
+        d = reads.setdefault(r.qname.split(" ")[0], {"ident": Fraction(0), "ratio": Fraction(0), "n": 0})
         d["n"] += 1
-        d["ident"] = max(d["ident"], r.matches / r.block)
-        d["ratio"] = max(d["ratio"], (r.qe - r.qs) / r.qlen)
+        d["ident"] = max(d["ident"], Fraction(r.matches, r.block))  # exact: the printed figure is judged to the last digit
+        d["ratio"] = max(d["ratio"], Fraction(r.qe - r.qs, r.qlen))
     runs = collections.Counter()
     for r in prim:
         for n, o in (rgaf.cigar_ops(r.cigar()) if r.cigar() else []):
@@ -156,7 +157,50 @@ def parse_report(text):
 
 
 def close(a, b, places=3):
-    return abs(float(a) - b) <= 1.5 * 10 ** (-places)
+    """the figure is printed with `places` decimals: it must be the decimal nearest to the exact value b
+    (a Fraction); only when b lies within 1e-10 of the middle between two printable values - closer than
+    a sum of a few thousand doubles can tell - both neighbours are accepted"""
+    scale = 10 ** places
+    x = Fraction(b) * scale
+    lo = x.numerator // x.denominator
+    frac = x - lo
+    if abs(frac - Fraction(1, 2)) < Fraction(scale, 10 ** 10):
+        cands = [Fraction(lo, scale), Fraction(lo + 1, scale)]
+    else:
+        cands = [Fraction(lo + (1 if frac > Fraction(1, 2) else 0), scale)]
+    try:
+        v = float(a)
+    except ValueError:
+        return False
+    return any(abs(v - float(c)) < 1e-9 for c in cands)
+
+
+# pairs (a1, b1, a2, b2) whose mean (a1/b1 + a2/b2) / 2 lies between 1e-10 and 8e-10 above (first row) or
+# below (second row) a printable middle x.xxx5 (found by an offline search over ~10**8 random pairs): a
+# figure computed with a bias of a billionth prints another last digit for them
+NEAR_MIDDLE = [(3397, 6329, 17930, 20050), (20739, 26893, 14362, 26026), (11946, 20131, 10747, 21426), (9515, 16914, 3825, 4939),
+               (3925, 5045, 6981, 9078), (2552, 3861, 20892, 28462), (4143, 5474, 23527, 29257), (12537, 15245, 1460, 1462),
+               (12404, 18515, 6248, 6965), (5597, 8479, 10887, 15144), (14822, 23724, 3969, 6936), (20075, 24477, 8171, 14997),
+               (15627, 25101, 8311, 11968), (12589, 16960, 9841, 17123), (2168, 4258, 15979, 18627), (16061, 26018, 897, 969),
+               (19564, 20764, 12798, 25353), (5435, 6495, 26645, 29082), (16137, 23963, 26201, 29653), (2719, 3274, 7614, 10282),
+               (18726, 19630, 15934, 20092), (24445, 24763, 13034, 14078), (20167, 26904, 9684, 12393), (9900, 17223, 12565, 22430)]
+
+
+def near_middle_file(rng, index):
+    """two counted reads (plus records that are not counted) whose best map ratios and best identities
+    average to just beside a printable middle"""
+    r1 = NEAR_MIDDLE[rng.randrange(len(NEAR_MIDDLE))]
+    r2 = NEAR_MIDDLE[rng.randrange(len(NEAR_MIDDLE))]
+    lines = []
+    for k, ((span, qlen), (m, blk)) in enumerate(zip((r1[:2], r1[2:]), (r2[:2], r2[2:]))):
+        qs = rng.randint(0, qlen - span)
+        lines.append("\t".join([f"nm{index}_{k}", str(qlen), str(qs), str(qs + span), "+", ">s1", str(blk + 50), "0", str(blk), str(m), str(blk), "60", "tp:A:P"]))
+    # a worse second alignment of the first read, a secondary one and a mapq-0 one: none of them changes the figures
+    lines.append("\t".join([f"nm{index}_0", str(r1[1]), "0", str(max(1, r1[0] // 3)), "+", ">s2", "900", "0", "800", "100", "800", "60", "tp:A:P"]))
+    lines.append("\t".join([f"nm{index}_2", "100", "0", "100", "+", ">s2", "100", "0", "100", "100", "100", "60", "tp:A:S"]))
+    lines.append("\t".join([f"nm{index}_3", "100", "0", "100", "+", ">s2", "100", "0", "100", "100", "100", "0", "tp:A:P"]))
+    rng.shuffle(lines)
+    return lines
 
 
 def run_case(ctx, rng, index, casedir):
@@ -165,12 +209,16 @@ def run_case(ctx, rng, index, casedir):
     hi = 300 if ctx.tier == "quick" else rng.choice([300, 3000])
     n = rng.choice([1, 2, 5, rng.randint(6, 60), rng.randint(60, hi)])
     lines = None
-    for _ in range(20):
+    if index % 20 == 7:
+        lines = near_middle_file(rng, index)
+        sit["averages_beside_a_printable_middle"] += 1
+    for _ in range(20 if lines is None else 0):
         lines = synth(rng, n, collections.Counter())
         if ref_stat(lines)["primary"] >= 1:
             break
     else:
-        lines = lines + ["readP\t10\t0\t10\t+\t>s1\t10\t0\t10\t10\t10\t60\ttp:A:P\tcg:Z:10="]
+        if index % 20 != 7:
+            lines = lines + ["readP\t10\t0\t10\t+\t>s1\t10\t0\t10\t10\t10\t60\ttp:A:P\tcg:Z:10="]
     # recount situations on the final file
     for l in lines:
         r = rgaf.Rec(l)
@@ -228,7 +276,7 @@ def run_case(ctx, rng, index, casedir):
             viol.append({"kind": "total_not_sum", "msg": f"total {rep['total']} != primary {rep['primary']} + secondary {rep['secondary']}"})
         for key in ("ident", "ratio"):
             if key not in rep or not close(rep[key], exp[key]):
-                viol.append({"kind": "figure_" + key, "msg": f"stat reports best {key} {rep.get(key)} but the definition gives {exp[key]:.5f}",
+                viol.append({"kind": "figure_" + key, "msg": f"stat reports best {key} {rep.get(key)} but the definition gives {float(exp[key]):.12f}",
                              "witness": {"figure": key}})
         if cigar:
             for key, op in (("del", "D"), ("ins", "I"), ("sub", "X"), ("match", "=")):
@@ -245,4 +293,4 @@ def run_case(ctx, rng, index, casedir):
             elif a != b:
                 viol.append({"kind": "order_dependence", "msg": f"{key}: {a} vs {b} for two orders of the same records"})
     return {"sigs": sigs, "evals": len(orders), "situations": dict(sit), "violations": viol,
-            "sample": {"records": len(lines), "expected": {k: v for k, v in exp.items() if k != "runs"}, "first": lines[0][:160]}}
+            "sample": {"records": len(lines), "expected": {k: (float(v) if isinstance(v, Fraction) else v) for k, v in exp.items() if k != "runs"}, "first": lines[0][:160]}}
